@@ -70,6 +70,13 @@ def m_skip(I, st, fn, ce, args, line, depth, dest_ty, may_unwind):
     return [("ret", _iter(it[2], [v, Const(min(hi, pos[1] + args[1][1]))]), st)]
 
 
+def m_copied(I, st, fn, ce, args, line, depth, dest_ty, may_unwind):
+    it = args[0]
+    if not (it[0] == "agg" and it[1] == "iter") or it[2] not in ("ref", "val"):
+        return None
+    return [("ret", _iter("val", list(it[4])), st)]
+
+
 def m_rev(I, st, fn, ce, args, line, depth, dest_ty, may_unwind):
     it = args[0]
     if not (it[0] == "agg" and it[1] == "iter") or it[2] not in ("ref", "val"):
@@ -194,6 +201,10 @@ def install():
     M["std::iter::Iterator::take"] = m_take
     M["std::iter::Iterator::skip"] = m_skip
     M["std::iter::Iterator::rev"] = m_rev
+    M["std::iter::Iterator::copied"] = m_copied
+    M["std::iter::Iterator::cloned"] = m_copied
+    M["<std::iter::Copied<I> as std::iter::Iterator>::next"] = m_next
+    M["<std::iter::Cloned<I> as std::iter::Iterator>::next"] = m_next
     M["<std::iter::Take<I> as std::iter::Iterator>::next"] = m_next
     M["<std::iter::Rev<I> as std::iter::Iterator>::next"] = m_next
     M["std::iter::Iterator::for_each"] = m_for_each
